@@ -8,6 +8,8 @@ What is extracted
   impl.closeGuard    the `temp.__exit__(…)` call of `AtomicWriter.__exit__` sits in a `try` whose handler
                      (BaseException/Exception/OSError/bare) unlinks the temp file and re-raises
   impl.replaceGuard  same for the `….replace(self.filename)` call
+  impl.resetTemp     `self.temp = None` is assigned on every path through `__exit__` (before the close, or in a finally)
+  impl.staleMissingOk  make_tempfile's stale clean-up `Path(self.temp.name).unlink(missing_ok=True)`
   sites              every file-system mutating call of bsp.py and every write on a file-like object in BSP.save
 """
 import ast
@@ -159,6 +161,36 @@ def _writer_shape(repo):
     if mkdirs != ['self.filename.parent.mkdir(parents=True, exist_ok=True)']:
         raise ExtractError(f'make_tempfile: mkdir call not understood: {mkdirs}')
     exclusive = all('x' in m for m in modes)
+    # the "already open" clean-up at the top of make_tempfile
+    stale = [n for n in mk.body if isinstance(n, ast.If) and ast.unparse(n.test) == 'self.temp is not None']
+    if len(stale) != 1 or stale[0].orelse or mk.body.index(stale[0]) > 1:
+        raise ExtractError('make_tempfile: no leading `if self.temp is not None:` clean-up block')
+    calls = [ast.unparse(st) for st in stale[0].body]
+    unl = [n for st in stale[0].body for n in ast.walk(st)
+           if isinstance(n, ast.Call) and isinstance(n.func, ast.Attribute) and n.func.attr == 'unlink']
+    if len(stale[0].body) != 2 or calls[0] != 'self.temp.close()' or len(unl) != 1 \
+            or ast.unparse(unl[0].func.value) != 'Path(self.temp.name)' or unl[0].args:
+        raise ExtractError(f'make_tempfile: stale clean-up not understood: {calls}')
+    stale_missing_ok = False
+    for kw in unl[0].keywords:
+        if kw.arg == 'missing_ok' and isinstance(kw.value, ast.Constant):
+            stale_missing_ok = bool(kw.value.value)
+        else:
+            raise ExtractError('make_tempfile: stale clean-up unlink arguments not understood')
+    # nothing else may survive between uses: every `self.<attr> = …` of the class is one of the known fields
+    for fn in cls.body:
+        if isinstance(fn, ast.FunctionDef):
+            for n in ast.walk(fn):
+                if isinstance(n, ast.Attribute) and isinstance(n.ctx, ast.Store) and isinstance(n.value, ast.Name) \
+                        and n.value.id == 'self' and n.attr not in ('filename', 'encoding', '_temp_name', 'is_bytes', 'temp'):
+                    raise ExtractError(f'AtomicWriter.{fn.name}: assignment to unknown attribute self.{n.attr}')
+    # _temp_name must be (re)assigned by the loop before anything reads it in make_tempfile
+    for n in ast.walk(mk):
+        if isinstance(n, ast.Attribute) and n.attr == '_temp_name' and isinstance(n.ctx, ast.Load) \
+                and not any(n in set(ast.walk(st)) for st in loop.body):
+            raise ExtractError('make_tempfile: self._temp_name is read outside the probing loop (carried between uses?)')
+    if any(isinstance(n, ast.Return) for n in ast.walk(mk)):
+        raise ExtractError('make_tempfile: early return not understood')
     # ---- __enter__
     en = _method(cls, '__enter__')
     en_src = [ast.unparse(s) for s in en.body if not (isinstance(s, ast.Expr) and isinstance(s.value, ast.Constant))]
@@ -207,10 +239,32 @@ def _writer_shape(repo):
             sw += _handler_names(h)
     if sw != ['FileNotFoundError']:
         raise ExtractError(f'__exit__: the clean-up unlink swallows {sw}, expected [FileNotFoundError]')
+    # does every path through __exit__ leave self.temp = None?
+    def _resets(st):
+        if not isinstance(st, ast.Assign) or len(st.targets) != 1:
+            return False
+        t, v = st.targets[0], st.value
+        if ast.unparse(t) == 'self.temp':
+            return isinstance(v, ast.Constant) and v.value is None
+        if isinstance(t, ast.Tuple) and isinstance(v, ast.Tuple) and len(t.elts) == len(v.elts):
+            return any(ast.unparse(a) == 'self.temp' and isinstance(b, ast.Constant) and b.value is None
+                       for a, b in zip(t.elts, v.elts))
+        return False
+    reset = False
+    chain = _stmt_child(closes[0], par, ex)
+    for inner, outer in zip(chain, chain[1:] + [ex]):
+        for field in ('body', 'orelse', 'finalbody'):
+            block = getattr(outer, field, None)
+            if isinstance(block, list) and any(inner is st for st in block):
+                idx = [i for i, st in enumerate(block) if st is inner][0]
+                if any(_resets(st) for st in block[:idx]) and not isinstance(outer, (ast.Try, ast.For, ast.While)):
+                    reset = True
+        if isinstance(outer, ast.Try) and any(inner is st for st in outer.body) and any(_resets(st) for st in outer.finalbody):
+            reset = True
     close_guard = _guarded(closes[0], par, cls, ex)
     repl_guard = _guarded(repl[0], par, cls, ex)
     return {'exclusive': exclusive, 'start': start, 'closeGuard': close_guard, 'replaceGuard': repl_guard,
-            'modes': modes}
+            'modes': modes, 'resetTemp': reset, 'staleMissingOk': stale_missing_ok}
 
 
 def _mode_of(call, pos):
@@ -375,7 +429,8 @@ def generate(repo):
          '/-- Shape of `AtomicWriter` as it is in the source now. -/',
          'def impl : C12.Impl :=',
          f"  {{ exclusive := {b(shape['exclusive'])}, closeGuard := {b(shape['closeGuard'])}, "
-         f"replaceGuard := {b(shape['replaceGuard'])}, start := {shape['start']} }}",
+         f"replaceGuard := {b(shape['replaceGuard'])}, start := {shape['start']},",
+         f"    resetTemp := {b(shape['resetTemp'])}, staleMissingOk := {b(shape['staleMissingOk'])} }}",
          '',
          '/-- Modes the temp file is opened with. -/',
          'def openModes : List String := [' + ', '.join(lean_string(m) for m in shape['modes']) + ']',
